@@ -1,11 +1,14 @@
-import TwistedModel.Telnet.Negotiate
+import TwistedModel.Telnet.NegotiateSeg
 /-!
 Driver glue for C39.
   `C39 run <LA> <RA> <LB> <RB> <op> <op> …`
      `<LA>` = options endpoint A's `enableLocal` accepts, `<RA>` = options its `enableRemote` accepts
      (decimal, joined by `,`; `-` = none); likewise B.  Ops: `qA:WILL:3` (A calls `will(3)`; `WONT`, `DO`,
-     `DONT`; side `A`/`B`), `dA` / `dB` (the oldest command in flight to that side is received).
-  → `<op-events>|<op-events>|… final <state>;<state>;… toA=<msgs> toB=<msgs> n=<requests>`
+     `DONT`; side `A`/`B`), `dA` / `dB` (the oldest command in flight to that side is received — the rest of it
+     when a segment already carried its first bytes), `bA:7` (the next 7 bytes in flight to A arrive as one
+     segment: as many deliveries as commands it completes), `sA:WILL:3` (A calls `will(3)` on a synchronous
+     transport: the request, then the pump's deliveries, as one group of events).
+  → `<op-events>|<op-events>|… final <state>;<state>;… toA=<msgs> toB=<msgs> n=<requests> part=<a>,<b>`
      op-events = events joined by `,` (`-` when none): `A.sent.WILL.3`, `A.fired.<id>.<result>`,
      `A.hook.enableLocal.3`, `A.raised.AssertionError`; state = `A3:us=no*#4:him=yes` for every side and
      every option mentioned in the ops (ascending).
@@ -23,15 +26,17 @@ def decCmd (s : String) : Option Cmd :=
   if s = "WILL" then some .WILL else if s = "WONT" then some .WONT
   else if s = "DO" then some .DO else if s = "DONT" then some .DONT else none
 
-def decOp (s : String) : Option Op :=
+def decOp (s : String) : Option MOp :=
   match s.splitOn ":" with
   | ["dA"] => some (.deliver false)
   | ["dB"] => some (.deliver true)
+  | ["bA", n] => n.toNat?.map (.bytes false)
+  | ["bB", n] => n.toNat?.map (.bytes true)
   | [q, c, o] => do
-    let side ← (if q = "qA" then some false else if q = "qB" then some true else none)
     let c ← decCmd c
     let o ← o.toNat?
-    pure (.req side c o)
+    if q = "qA" then pure (.req false c o) else if q = "qB" then pure (.req true c o)
+    else if q = "sA" then pure (.sreq false c o) else if q = "sB" then pure (.sreq true c o) else none
   | _ => none
 
 def showSide (b : Bool) : String := if b then "B" else "A"
@@ -66,20 +71,18 @@ def showPersp (p : Persp) : String :=
 def showMsgs (ms : List Msg) : String :=
   if ms.isEmpty then "-" else ",".intercalate (ms.map fun (c, o) => showCmd c ++ "." ++ toString o)
 
-def opOption : Op → List Nat
+def opOption : MOp → List Nat
   | .req _ _ o => [o]
-  | .deliver _ => []
+  | .sreq _ _ o => [o]
+  | _ => []
 
 def insertSorted (x : Nat) : List Nat → List Nat
   | [] => [x]
   | y :: ys => if x < y then x :: y :: ys else if x = y then y :: ys else y :: insertSorted x ys
 
-def runLog (pol : Bool → Policy) : Sys → List Op → Sys × List String
-  | s, [] => (s, [])
-  | s, op :: ops =>
-    let r := step pol s op
-    let r' := runLog pol r.1 ops
-    (r'.1, showEvs r.2 :: r'.2)
+def runLog (pol : Bool → Policy) (s : MSys) (ops : List MOp) : MSys × List String :=
+  let r := mrun pol s ops
+  (r.1, r.2.1.map showEvs)
 
 def handle (args : List String) : String :=
   match args with
@@ -89,7 +92,8 @@ def handle (args : List String) : String :=
       let pol : Bool → Policy := fun side =>
         if side then ⟨fun o => lb.contains o, fun o => rb.contains o⟩
         else ⟨fun o => la.contains o, fun o => ra.contains o⟩
-      let (s, log) := runLog pol Sys.init ops
+      let (ms, log) := runLog pol MSys.init ops
+      let s := ms.sys
       let options := (ops.flatMap opOption).foldr insertSorted []
       let states := [false, true].flatMap fun side => options.map fun o =>
         showSide side ++ toString o ++ ":us=" ++ showPersp (s.opts side o).us ++
@@ -97,7 +101,7 @@ def handle (args : List String) : String :=
       (if log.isEmpty then "-" else "|".intercalate log) ++ " final " ++
         (if states.isEmpty then "-" else ";".intercalate states) ++
         " toA=" ++ showMsgs (s.inbox false) ++ " toB=" ++ showMsgs (s.inbox true) ++
-        " n=" ++ toString s.nextId
+        " n=" ++ toString s.nextId ++ " part=" ++ toString (ms.part false) ++ "," ++ toString (ms.part true)
     | _, _, _, _, _ => "bad-op"
   | _ => "bad-op"
 
